@@ -33,8 +33,37 @@ def findings_tables():
     c = collections.Counter((x["property"], x["status"]) for x in k)
     out += ["", "Counts (open / fixed) per property: " + ", ".join(f"{p} {c[(p,'open')]}/{c[(p,'fixed')]}" for p in sorted({x['property'] for x in k}))]
     return "\n".join(out)
+def rule_index():
+    """per property: every rule id the checker emits on the current tree, with its instance counts and the text of one
+    passing instance (what the rule establishes when it holds)"""
+    import sys
+    sys.path.insert(0, V)
+    from sa import report
+    from sa.run import Ctx, load_rules, PROPS
+    ctx = Ctx("quick", 0)
+    out = []
+    for p in PROPS:
+        r = report.Results(p)
+        load_rules(p).check(ctx, r)
+        by = collections.OrderedDict()
+        for i in r.instances:
+            by.setdefault(i.rule, []).append(i)
+        def num(rule):
+            m = re.match(r"R(\d+)\.(\d+)", rule)
+            return (int(m.group(1)), int(m.group(2))) if m else (99, 99)
+        out += [f"**{p}** ({len(r.instances)} instances)", "", "| rule | ok / fail / undecided | an instance, when it holds |", "|---|---|---|"]
+        for rule in sorted(by, key=num):
+            xs = by[rule]
+            c = collections.Counter(i.status for i in xs)
+            ex = next((i for i in xs if i.status == "ok"), xs[0])
+            txt = re.sub(r"\s+", " ", ex.what).replace("|", "/")[:200]
+            out.append(f"| {rule} | {c['ok']} / {c['fail']} / {c['undecided']} | `{ex.key.replace('|', '¦')[:70]}`: {txt} |")
+        out.append("")
+    return "\n".join(out)
 s = open(f"{V}/DESIGN.md").read()
-for tag, text in (("seeds", seeds_table()), ("findings", findings_tables())):
+if "<!-- BEGIN:rules -->" not in s:
+    s = s.rstrip("\n") + "\n\n## Appendix A. Rule index (generated from the current tree by tools/gen_design_tables.py)\n\nThe prose sections above introduce the rules in the order they were built (sections 4, 12-17); this index lists every rule id a check emits today.  `fail` counts are the open known findings.\n\n<!-- BEGIN:rules -->\n<!-- END:rules -->\n"
+for tag, text in (("seeds", seeds_table()), ("findings", findings_tables()), ("rules", rule_index())):
     b, e = f"<!-- BEGIN:{tag} -->", f"<!-- END:{tag} -->"
     assert b in s and e in s, tag
     s = s[:s.index(b) + len(b)] + "\n" + text + "\n" + s[s.index(e):]
